@@ -32,6 +32,11 @@ MUTANTS = {
     'seed_in_parent_only': ('C13', {'dup_sample'}, [
         (MC, 'ProcessPoolExecutor(initializer=np.random.seed)', 'ProcessPoolExecutor()'),
         (MC, '    # build the args list\n', '    np.random.seed()\n    # build the args list\n')], 'fork copies whatever the parent seeded'),
+    'seed_from_module_level_task_counter': ('C13', {'dup_sample'}, [
+        (MC, 'ProcessPoolExecutor(initializer=np.random.seed)', 'ProcessPoolExecutor()'),
+        (MC, 'def work_package(pass_list: list):', '_tasks_done_by_this_process = 0\n\n\ndef work_package(pass_list: list):'),
+        (MC, "    log = _get_logger()\n\n    print('#', end='')", "    log = _get_logger()\n    global _tasks_done_by_this_process\n    _tasks_done_by_this_process += 1\n    np.random.seed(_tasks_done_by_this_process)\n\n    print('#', end='')")],
+        'every worker process counts from 1: needs per-process module-level variables in the simulation'),
     'one_iteration_short': ('C13', {'iteration_count'}, [
         (MC, 'for _ in range(iterations):', 'for _ in range(iterations - 1):')], 'off by one'),
     'normal_arguments_swapped': ('C13', {'wrong_distribution', 'out_of_support'}, [
